@@ -1,7 +1,7 @@
 (* Dispatch.v — single entry point [run : sx -> sx] used by the OCaml driver
    and by the in-Coq extraction self-check.  A case is [L [A fn; arg]]. *)
 From Coq Require Import List NArith Bool.
-From PTA Require Import Sx Glob Wire.
+From PTA Require Import Sx Glob Wire Label.
 Import ListNotations.
 Open Scope N_scope.
 
@@ -17,5 +17,7 @@ Definition run (c : sx) : sx :=
   | L [A 14; arg] => run_rule_histories arg
   | L [A 15; arg] => run_la_histories arg
   | L [A 16; arg] => run_layer_histories arg
+  | L [A 17; arg] => run_plot_labels arg
+  | L [A 18; arg] => run_draw_kwargs arg
   | _ => sx_err
   end.
